@@ -80,6 +80,12 @@ def rule_fold(check, rule, key, step_names, witness):
     # (b) the step
     n_steps = 0
     for sp in loop.sub:
+        if sp.status in ('break', 'return'):
+            kb = 'fold-early-exit|%s|%s' % (fi.key, ' & '.join(show_lit(l) for l in sp.lits)[:80])
+            check.violation(rule, st, 'the fold loop can be left early (%s) under %s: the inputs after that point never take part in the '
+                            'result, whatever they require' % (sp.status, ' & '.join(show_lit(l) for l in sp.lits)[:120] or 'no condition'),
+                            key=kb, witness=witness)
+            continue
         if sp.status == 'raise':
             continue
         carried = [(n, v) for n, v in sp.env_out.items() if sp.env_in.get(n) is not None and sp.env_in[n][0] == 'V']
